@@ -248,3 +248,413 @@ Theorem compiled_scripts_correct_from_source :
              (run sfinal (sstep St exec flag_set trainer_beaten cmp_var cmp_var_value case_matches (fun l => fl_body l body Kstop)) n (enter body Kstop) s)).
 Proof. exact C01Top.compiled_scripts_correct_from_source. Qed.
 Print Assumptions compiled_scripts_correct_from_source.
+
+(* ---- down to the printed text (PrintRead.v). The theorems above are about the instruction list emit_script returns; the
+   compiler's output is the text print_instrs mp code. read_printed / read_asm_print: what the assembly reader makes of every
+   printed line (every constructor) and of the whole text; print_read_behaviour(_exact): the target machine runs the
+   read-back text exactly as it runs the list, under an executable condition on names and arguments (printable_code: no
+   newline / comma in an argument, no command named like one of the machine's own instructions - each condition shown
+   necessary by an example in PrintRead.v); compiled_text_correct_from_source: C01 from the source text to the printed
+   text. hypotheses_satisfiable: all premises hold on a real source text, markers on, both settings. ---- *)
+From Coq Require Import String NArith Bool Permutation.
+From Pory Require Import PrintRead.
+Import ListNotations. Open Scope list_scope.
+Theorem read_printed :
+  forall (path : text) (i : instr), printable_instr path i = true -> read_line (line_of path i) = rb i.
+Proof. exact PrintRead.read_printed. Qed.
+Print Assumptions read_printed.
+
+Theorem printed_line_nl :
+  forall (path : text) (i : instr), printable_instr path i = true -> nochar 10 (line_of path i) = true.
+Proof. exact PrintRead.printed_line_nl. Qed.
+Print Assumptions printed_line_nl.
+
+Theorem read_asm_print :
+  forall (mpath : option text) (code : list instr),
+  printable_code mpath code = true -> read_asm (print_instrs mpath code) = map rb code ++ [IBlank].
+Proof. exact PrintRead.read_asm_print. Qed.
+Print Assumptions read_asm_print.
+
+Theorem print_read_behaviour :
+  forall (St : Type) (exec : cmd -> St -> stepres St) (flag_set trainer_beaten : text -> St -> bool)
+    (cmp_var cmp_var_value : text -> text -> St -> comparison) (case_matches : text -> text -> St -> bool) (mpath : option text)
+    (code : list instr) (name : text),
+  printable_code mpath code = true ->
+  token_blind St exec ->
+  (forall (m : nat) (s : St),
+   exists m' : nat,
+     run tfinal (tstep St exec flag_set trainer_beaten cmp_var cmp_var_value case_matches (read_asm (print_instrs mpath code))) m'
+       (jump (read_asm (print_instrs mpath code)) name) s =
+     strip_res (run tfinal (tstep St exec flag_set trainer_beaten cmp_var cmp_var_value case_matches code) m (jump code name) s)) /\
+  (forall (m : nat) (s : St),
+   res_le
+     (run tfinal (tstep St exec flag_set trainer_beaten cmp_var cmp_var_value case_matches (read_asm (print_instrs mpath code))) m
+        (jump (read_asm (print_instrs mpath code)) name) s)
+     (strip_res (run tfinal (tstep St exec flag_set trainer_beaten cmp_var cmp_var_value case_matches code) m (jump code name) s))).
+Proof. exact PrintRead.print_read_behaviour. Qed.
+Print Assumptions print_read_behaviour.
+
+Theorem print_read_behaviour_any_exec :
+  forall (St : Type) (exec : cmd -> St -> stepres St) (flag_set trainer_beaten : text -> St -> bool)
+    (cmp_var cmp_var_value : text -> text -> St -> comparison) (case_matches : text -> text -> St -> bool) (mpath : option text)
+    (code : list instr) (name : text),
+  printable_code mpath code = true ->
+  (forall (m : nat) (s : St),
+   exists m' : nat,
+     run tfinal (tstep St exec flag_set trainer_beaten cmp_var cmp_var_value case_matches (read_asm (print_instrs mpath code))) m'
+       (jump (read_asm (print_instrs mpath code)) name) s =
+     strip_res
+       (run tfinal (tstep St (fun c : cmd => exec (strip c)) flag_set trainer_beaten cmp_var cmp_var_value case_matches code) m 
+          (jump code name) s)) /\
+  (forall (m : nat) (s : St),
+   res_le
+     (run tfinal (tstep St exec flag_set trainer_beaten cmp_var cmp_var_value case_matches (read_asm (print_instrs mpath code))) m
+        (jump (read_asm (print_instrs mpath code)) name) s)
+     (strip_res
+        (run tfinal (tstep St (fun c : cmd => exec (strip c)) flag_set trainer_beaten cmp_var cmp_var_value case_matches code) m
+           (jump code name) s))).
+Proof. exact PrintRead.print_read_behaviour_any_exec. Qed.
+Print Assumptions print_read_behaviour_any_exec.
+
+Theorem print_read_behaviour_exact :
+  forall (St : Type) (exec : cmd -> St -> stepres St) (flag_set trainer_beaten : text -> St -> bool)
+    (cmp_var cmp_var_value : text -> text -> St -> comparison) (case_matches : text -> text -> St -> bool) (mpath : option text)
+    (code : list instr) (name : text),
+  printable_code mpath code = true ->
+  closed_code code = true ->
+  token_blind St exec ->
+  forall (m : nat) (s : St),
+  run tfinal (tstep St exec flag_set trainer_beaten cmp_var cmp_var_value case_matches (read_asm (print_instrs mpath code))) m
+    (jump (read_asm (print_instrs mpath code)) name) s =
+  strip_res (run tfinal (tstep St exec flag_set trainer_beaten cmp_var cmp_var_value case_matches code) m (jump code name) s).
+Proof. exact PrintRead.print_read_behaviour_exact. Qed.
+Print Assumptions print_read_behaviour_exact.
+
+Theorem print_read_behaviour_exact_any_exec :
+  forall (St : Type) (exec : cmd -> St -> stepres St) (flag_set trainer_beaten : text -> St -> bool)
+    (cmp_var cmp_var_value : text -> text -> St -> comparison) (case_matches : text -> text -> St -> bool) (mpath : option text)
+    (code : list instr) (name : text),
+  printable_code mpath code = true ->
+  closed_code code = true ->
+  forall (m : nat) (s : St),
+  run tfinal (tstep St exec flag_set trainer_beaten cmp_var cmp_var_value case_matches (read_asm (print_instrs mpath code))) m
+    (jump (read_asm (print_instrs mpath code)) name) s =
+  strip_res
+    (run tfinal (tstep St (fun c : cmd => exec (strip c)) flag_set trainer_beaten cmp_var cmp_var_value case_matches code) m (jump code name) s).
+Proof. exact PrintRead.print_read_behaviour_exact_any_exec. Qed.
+Print Assumptions print_read_behaviour_exact_any_exec.
+
+Theorem run_target_print_read :
+  forall (mpath : option text) (code : list instr) (entry : text) (fuel : nat) (seed : N),
+  printable_code mpath code = true ->
+  closed_code code = true -> run_target (read_asm (print_instrs mpath code)) entry fuel seed = run_target code entry fuel seed.
+Proof. exact PrintRead.run_target_print_read. Qed.
+Print Assumptions run_target_print_read.
+
+Theorem compiled_text_correct_from_source :
+  forall (St : Type) (exec : cmd -> St -> stepres St) (flag_set trainer_beaten : text -> St -> bool)
+    (cmp_var cmp_var_value : text -> text -> St -> comparison) (case_matches : text -> text -> St -> bool) (hl hd hs : N -> bool)
+    (autovars : list (text * autovar)) (switches : list (text * text)) (ee : bool) (fc : fontcfg) (cli_font : text) 
+    (cli_maxlen : Z) (source : text) (p : program),
+  parse_program autovars switches ee (parse_format fc cli_font cli_maxlen ee) (lex hl hd hs source) = Parser.Ok p ->
+  forall body : list stmt,
+  In body (bodies_of (tops p)) ->
+  NoDup (WorkLabels.dlabs body) ->
+  forall (mp : option text) (tl : list text) (name : text) (glob optimize : bool) (w : wst) (code : list instr),
+  emit_graph body = Ok w ->
+  emit_script mp tl name glob optimize body = Ok code ->
+  RenderFromSource.names_okb (finals w) code = true ->
+  (Z.of_nat (Datatypes.length (finals w)) <= 10 ^ 40)%Z ->
+  printable_code mp code = true ->
+  token_blind St exec ->
+  (forall (n : nat) (s : St),
+   exists m : nat,
+     strip_res
+       (run sfinal (sstep St exec flag_set trainer_beaten cmp_var cmp_var_value case_matches (fun l : text => fl_body l body Kstop)) n
+          (enter body Kstop) s) =
+     run tfinal (tstep St exec flag_set trainer_beaten cmp_var cmp_var_value case_matches (read_asm (print_instrs mp code))) m
+       (jump (read_asm (print_instrs mp code)) name) s) /\
+  (forall (m : nat) (s : St),
+   exists n : nat,
+     res_le
+       (run tfinal (tstep St exec flag_set trainer_beaten cmp_var cmp_var_value case_matches (read_asm (print_instrs mp code))) m
+          (jump (read_asm (print_instrs mp code)) name) s)
+       (strip_res
+          (run sfinal (sstep St exec flag_set trainer_beaten cmp_var cmp_var_value case_matches (fun l : text => fl_body l body Kstop)) n
+             (enter body Kstop) s))).
+Proof. exact PrintRead.compiled_text_correct_from_source. Qed.
+Print Assumptions compiled_text_correct_from_source.
+
+Theorem compiled_text_correct_from_source_any_exec :
+  forall (St : Type) (exec : cmd -> St -> stepres St) (flag_set trainer_beaten : text -> St -> bool)
+    (cmp_var cmp_var_value : text -> text -> St -> comparison) (case_matches : text -> text -> St -> bool) (hl hd hs : N -> bool)
+    (autovars : list (text * autovar)) (switches : list (text * text)) (ee : bool) (fc : fontcfg) (cli_font : text) 
+    (cli_maxlen : Z) (source : text) (p : program),
+  parse_program autovars switches ee (parse_format fc cli_font cli_maxlen ee) (lex hl hd hs source) = Parser.Ok p ->
+  forall body : list stmt,
+  In body (bodies_of (tops p)) ->
+  NoDup (WorkLabels.dlabs body) ->
+  forall (mp : option text) (tl : list text) (name : text) (glob optimize : bool) (w : wst) (code : list instr),
+  emit_graph body = Ok w ->
+  emit_script mp tl name glob optimize body = Ok code ->
+  RenderFromSource.names_okb (finals w) code = true ->
+  (Z.of_nat (Datatypes.length (finals w)) <= 10 ^ 40)%Z ->
+  printable_code mp code = true ->
+  (forall (n : nat) (s : St),
+   exists m : nat,
+     strip_res
+       (run sfinal
+          (sstep St (fun c : cmd => exec (strip c)) flag_set trainer_beaten cmp_var cmp_var_value case_matches
+             (fun l : text => fl_body l body Kstop)) n (enter body Kstop) s) =
+     run tfinal (tstep St exec flag_set trainer_beaten cmp_var cmp_var_value case_matches (read_asm (print_instrs mp code))) m
+       (jump (read_asm (print_instrs mp code)) name) s) /\
+  (forall (m : nat) (s : St),
+   exists n : nat,
+     res_le
+       (run tfinal (tstep St exec flag_set trainer_beaten cmp_var cmp_var_value case_matches (read_asm (print_instrs mp code))) m
+          (jump (read_asm (print_instrs mp code)) name) s)
+       (strip_res
+          (run sfinal
+             (sstep St (fun c : cmd => exec (strip c)) flag_set trainer_beaten cmp_var cmp_var_value case_matches
+                (fun l : text => fl_body l body Kstop)) n (enter body Kstop) s))).
+Proof. exact PrintRead.compiled_text_correct_from_source_any_exec. Qed.
+Print Assumptions compiled_text_correct_from_source_any_exec.
+
+Theorem hypotheses_satisfiable :
+  forall optimize : bool,
+  exists (p : program) (w : wst),
+    parse_program [] [] false (parse_format fc0 [] 0 false) (lex nf nf nf (t ex_src)) = Parser.Ok p /\
+    In ex_body (bodies_of (tops p)) /\
+    NoDup (WorkLabels.dlabs ex_body) /\
+    emit_graph ex_body = Ok w /\
+    emit_script ex_mp [] (t "Main") true optimize ex_body = Ok (ex_code optimize) /\
+    RenderFromSource.names_okb (finals w) (ex_code optimize) = true /\
+    (Z.of_nat (Datatypes.length (finals w)) <= 10 ^ 40)%Z /\
+    printable_code ex_mp (ex_code optimize) = true /\
+    closed_code (ex_code optimize) = true /\ Datatypes.length (ex_code optimize) = (if optimize then 57 else 85) /\ token_blind N o_exec.
+Proof. exact PrintRead.hypotheses_satisfiable. Qed.
+Print Assumptions hypotheses_satisfiable.
+
+
+(* ---- inside the whole program (ProgramRun.v). The compiler emits ONE instruction list per file and the machine resolves a
+   label by searching all of it. script_steps_in_program_closed / script_runs_in_program_closed: if prog = pre ++ code ++ post,
+   no label of code is defined in pre and code is closed (rendered_script_closed: every emitted script is), the run over prog
+   is the run over code shifted by length pre until code jumps to a label it does not define; then the program continues
+   at that label (_continued_) or leaves (_unknown_); self_contained_...: without such jumps the runs are equal for every
+   fuel. program_contains_scripts: the program's list contains the code of each script (top-level and map scripts) as a
+   segment. program_scripts_correct: C01 for every script against the WHOLE program's list, assuming the labels of the
+   program pairwise distinct (boundary B2). ---- *)
+From Pory Require Import ProgramRun.
+Theorem script_steps_in_program_closed :
+  forall (St : Type) (exec : cmd -> St -> stepres St) (flag_set trainer_beaten : text -> St -> bool)
+    (cmp_var cmp_var_value : text -> text -> St -> comparison) (case_matches : text -> text -> St -> bool) (pre code post : list instr)
+    (name : text) (k : nat) (s : St) (tr : list event) (b : tstate) (s' : St),
+  closed code ->
+  (forall l : text, In l (lnames code) -> ~ In l (lnames pre)) ->
+  steps tfinal (tstep St exec flag_set trainer_beaten cmp_var cmp_var_value case_matches code) k (jump code name) s tr b s' ->
+  steps tfinal (tstep St exec flag_set trainer_beaten cmp_var cmp_var_value case_matches (pre ++ code ++ post)) k
+    (jump (pre ++ code ++ post) name) s tr (emb pre code post b) s'.
+Proof. exact ProgramRun.script_steps_in_program_closed. Qed.
+Print Assumptions script_steps_in_program_closed.
+
+Theorem script_runs_in_program_closed :
+  forall (St : Type) (exec : cmd -> St -> stepres St) (flag_set trainer_beaten : text -> St -> bool)
+    (cmp_var cmp_var_value : text -> text -> St -> comparison) (case_matches : text -> text -> St -> bool) (pre code post : list instr)
+    (name : text) (m : nat) (s : St),
+  closed code ->
+  (forall l : text, In l (lnames code) -> ~ In l (lnames pre)) ->
+  match snd (run tfinal (tstep St exec flag_set trainer_beaten cmp_var cmp_var_value case_matches code) m (jump code name) s) with
+  | Done (OJumpOut l) =>
+      exists (k : nat) (s' : St),
+        k <= m /\
+        steps tfinal (tstep St exec flag_set trainer_beaten cmp_var cmp_var_value case_matches (pre ++ code ++ post)) k
+          (jump (pre ++ code ++ post) name) s
+          (Datatypes.fst (run tfinal (tstep St exec flag_set trainer_beaten cmp_var cmp_var_value case_matches code) m (jump code name) s))
+          (jump (pre ++ code ++ post) l) s'
+  | _ =>
+      run tfinal (tstep St exec flag_set trainer_beaten cmp_var cmp_var_value case_matches (pre ++ code ++ post)) m
+        (jump (pre ++ code ++ post) name) s =
+      run tfinal (tstep St exec flag_set trainer_beaten cmp_var cmp_var_value case_matches code) m (jump code name) s
+  end.
+Proof. exact ProgramRun.script_runs_in_program_closed. Qed.
+Print Assumptions script_runs_in_program_closed.
+
+Theorem script_runs_in_program_continued_closed :
+  forall (St : Type) (exec : cmd -> St -> stepres St) (flag_set trainer_beaten : text -> St -> bool)
+    (cmp_var cmp_var_value : text -> text -> St -> comparison) (case_matches : text -> text -> St -> bool) (pre code post : list instr)
+    (name : text) (m : nat) (s : St) (l : text),
+  closed code ->
+  (forall l0 : text, In l0 (lnames code) -> ~ In l0 (lnames pre)) ->
+  snd (run tfinal (tstep St exec flag_set trainer_beaten cmp_var cmp_var_value case_matches code) m (jump code name) s) = Done (OJumpOut l) ->
+  exists (k : nat) (s' : St),
+    k <= m /\
+    run tfinal (tstep St exec flag_set trainer_beaten cmp_var cmp_var_value case_matches (pre ++ code ++ post)) m
+      (jump (pre ++ code ++ post) name) s =
+    (Datatypes.fst (run tfinal (tstep St exec flag_set trainer_beaten cmp_var cmp_var_value case_matches code) m (jump code name) s) ++
+     Datatypes.fst
+       (run tfinal (tstep St exec flag_set trainer_beaten cmp_var cmp_var_value case_matches (pre ++ code ++ post)) 
+          (m - k) (jump (pre ++ code ++ post) l) s'),
+     snd
+       (run tfinal (tstep St exec flag_set trainer_beaten cmp_var cmp_var_value case_matches (pre ++ code ++ post)) 
+          (m - k) (jump (pre ++ code ++ post) l) s')).
+Proof. exact ProgramRun.script_runs_in_program_continued_closed. Qed.
+Print Assumptions script_runs_in_program_continued_closed.
+
+Theorem script_runs_in_program_unknown_closed :
+  forall (St : Type) (exec : cmd -> St -> stepres St) (flag_set trainer_beaten : text -> St -> bool)
+    (cmp_var cmp_var_value : text -> text -> St -> comparison) (case_matches : text -> text -> St -> bool) (pre code post : list instr)
+    (name : text) (m : nat) (s : St),
+  closed code ->
+  (forall l : text, In l (lnames code) -> ~ In l (lnames pre)) ->
+  (forall l : text,
+   snd (run tfinal (tstep St exec flag_set trainer_beaten cmp_var cmp_var_value case_matches code) m (jump code name) s) = Done (OJumpOut l) ->
+   ~ In l (lnames (pre ++ code ++ post))) ->
+  run tfinal (tstep St exec flag_set trainer_beaten cmp_var cmp_var_value case_matches (pre ++ code ++ post)) m
+    (jump (pre ++ code ++ post) name) s =
+  run tfinal (tstep St exec flag_set trainer_beaten cmp_var cmp_var_value case_matches code) m (jump code name) s.
+Proof. exact ProgramRun.script_runs_in_program_unknown_closed. Qed.
+Print Assumptions script_runs_in_program_unknown_closed.
+
+Theorem self_contained_script_runs_in_program_closed :
+  forall (St : Type) (exec : cmd -> St -> stepres St) (flag_set trainer_beaten : text -> St -> bool)
+    (cmp_var cmp_var_value : text -> text -> St -> comparison) (case_matches : text -> text -> St -> bool) (pre code post : list instr)
+    (name : text) (m : nat) (s : St),
+  closed code ->
+  (forall l : text, In l (lnames code) -> ~ In l (lnames pre)) ->
+  (forall l : text, In l (jtargets code) -> In l (lnames (pre ++ code ++ post)) -> In l (lnames code)) ->
+  (In name (lnames (pre ++ code ++ post)) -> In name (lnames code)) ->
+  run tfinal (tstep St exec flag_set trainer_beaten cmp_var cmp_var_value case_matches (pre ++ code ++ post)) m
+    (jump (pre ++ code ++ post) name) s =
+  run tfinal (tstep St exec flag_set trainer_beaten cmp_var cmp_var_value case_matches code) m (jump code name) s.
+Proof. exact ProgramRun.self_contained_script_runs_in_program_closed. Qed.
+Print Assumptions self_contained_script_runs_in_program_closed.
+
+Theorem rendered_script_closed :
+  forall (mp : option text) (tl : list text) (name : text) (glob : bool) (G : list chunk) (order : list Z) (code : list instr),
+  render_chunks mp tl name glob G order = Ok code -> wf_render mp name G order code = true -> closed code.
+Proof. exact ProgramRun.rendered_script_closed. Qed.
+Print Assumptions rendered_script_closed.
+
+Theorem program_contains_scripts :
+  forall (optimize : bool) (mp : option text) (p : program) (prog : list instr),
+  emit_program_instrs optimize mp p = Ok prog ->
+  forall (name : text) (glob : bool) (body : list stmt),
+  In (name, glob, body) (NameClash.scripts_of (tops p)) ->
+  exists code pre post : list instr, emit_script mp (map xname (texts p)) name glob optimize body = Ok code /\ prog = pre ++ code ++ post.
+Proof. exact ProgramRun.program_contains_scripts. Qed.
+Print Assumptions program_contains_scripts.
+
+Theorem code_labels_distinct_source :
+  forall (mp : option text) (tl : list text) (name : text) (glob optimize : bool) (body : list stmt) (w : wst) (code : list instr),
+  emit_graph body = Ok w ->
+  src_ok body -> emit_script mp tl name glob optimize body = Ok code -> NoDup (lnames code) -> NoDup (WorkLabels.dlabs body).
+Proof. exact ProgramRun.code_labels_distinct_source. Qed.
+Print Assumptions code_labels_distinct_source.
+
+Theorem program_scripts_correct :
+  forall (St : Type) (exec : cmd -> St -> stepres St) (flag_set trainer_beaten : text -> St -> bool)
+    (cmp_var cmp_var_value : text -> text -> St -> comparison) (case_matches : text -> text -> St -> bool) (hl hd hs : N -> bool)
+    (autovars : list (text * autovar)) (switches : list (text * text)) (ee : bool) (fc : fontcfg) (cli_font : text) 
+    (cli_maxlen : Z) (src : text) (p : program) (optimize : bool) (mp : option text) (prog : list instr),
+  parse_program autovars switches ee (parse_format fc cli_font cli_maxlen ee) (lex hl hd hs src) = Parser.Ok p ->
+  emit_program_instrs optimize mp p = Ok prog ->
+  NoDup (lnames prog) ->
+  forall (name : text) (glob : bool) (body : list stmt),
+  In (name, glob, body) (NameClash.scripts_of (tops p)) ->
+  forall (w : wst) (code : list instr),
+  emit_graph body = Ok w ->
+  emit_script mp (map xname (texts p)) name glob optimize body = Ok code ->
+  RenderFromSource.names_okb (finals w) code = true ->
+  (forall (n : nat) (s : St),
+   exists m : nat,
+     match
+       snd
+         (run sfinal (sstep St exec flag_set trainer_beaten cmp_var cmp_var_value case_matches (fun l : text => fl_body l body Kstop)) n
+            (enter body Kstop) s)
+     with
+     | Done (OJumpOut l) =>
+         exists (k : nat) (s' : St),
+           k <= m /\
+           steps tfinal (tstep St exec flag_set trainer_beaten cmp_var cmp_var_value case_matches prog) k (jump prog name) s
+             (Datatypes.fst
+                (run sfinal (sstep St exec flag_set trainer_beaten cmp_var cmp_var_value case_matches (fun l0 : text => fl_body l0 body Kstop))
+                   n (enter body Kstop) s)) (jump prog l) s'
+     | _ =>
+         run tfinal (tstep St exec flag_set trainer_beaten cmp_var cmp_var_value case_matches prog) m (jump prog name) s =
+         run sfinal (sstep St exec flag_set trainer_beaten cmp_var cmp_var_value case_matches (fun l : text => fl_body l body Kstop)) n
+           (enter body Kstop) s
+     end) /\
+  (forall (m : nat) (s : St),
+   exists n : nat,
+     res_le (run tfinal (tstep St exec flag_set trainer_beaten cmp_var cmp_var_value case_matches prog) m (jump prog name) s)
+       (run sfinal (sstep St exec flag_set trainer_beaten cmp_var cmp_var_value case_matches (fun l : text => fl_body l body Kstop)) n
+          (enter body Kstop) s) \/
+     (exists (l : text) (k : nat) (s' : St),
+        snd
+          (run sfinal (sstep St exec flag_set trainer_beaten cmp_var cmp_var_value case_matches (fun l0 : text => fl_body l0 body Kstop)) n
+             (enter body Kstop) s) = Done (OJumpOut l) /\
+        In l (lnames prog) /\
+        k <= m /\
+        steps tfinal (tstep St exec flag_set trainer_beaten cmp_var cmp_var_value case_matches prog) k (jump prog name) s
+          (Datatypes.fst
+             (run sfinal (sstep St exec flag_set trainer_beaten cmp_var cmp_var_value case_matches (fun l0 : text => fl_body l0 body Kstop)) n
+                (enter body Kstop) s)) (jump prog l) s')).
+Proof. exact ProgramRun.program_scripts_correct. Qed.
+Print Assumptions program_scripts_correct.
+
+Theorem program_script_goto_continues :
+  forall (St : Type) (exec : cmd -> St -> stepres St) (flag_set trainer_beaten : text -> St -> bool)
+    (cmp_var cmp_var_value : text -> text -> St -> comparison) (case_matches : text -> text -> St -> bool) (hl hd hs : N -> bool)
+    (autovars : list (text * autovar)) (switches : list (text * text)) (ee : bool) (fc : fontcfg) (cli_font : text) 
+    (cli_maxlen : Z) (src : text) (p : program) (optimize : bool) (mp : option text) (prog : list instr),
+  parse_program autovars switches ee (parse_format fc cli_font cli_maxlen ee) (lex hl hd hs src) = Parser.Ok p ->
+  emit_program_instrs optimize mp p = Ok prog ->
+  NoDup (lnames prog) ->
+  forall (name : text) (glob : bool) (body : list stmt),
+  In (name, glob, body) (NameClash.scripts_of (tops p)) ->
+  forall (w : wst) (code : list instr),
+  emit_graph body = Ok w ->
+  emit_script mp (map xname (texts p)) name glob optimize body = Ok code ->
+  RenderFromSource.names_okb (finals w) code = true ->
+  forall (n : nat) (s : St) (l : text),
+  snd
+    (run sfinal (sstep St exec flag_set trainer_beaten cmp_var cmp_var_value case_matches (fun l0 : text => fl_body l0 body Kstop)) n
+       (enter body Kstop) s) = Done (OJumpOut l) ->
+  exists (k : nat) (s' : St),
+    forall j : nat,
+    run tfinal (tstep St exec flag_set trainer_beaten cmp_var cmp_var_value case_matches prog) (k + j) (jump prog name) s =
+    (Datatypes.fst
+       (run sfinal (sstep St exec flag_set trainer_beaten cmp_var cmp_var_value case_matches (fun l0 : text => fl_body l0 body Kstop)) n
+          (enter body Kstop) s) ++
+     Datatypes.fst (run tfinal (tstep St exec flag_set trainer_beaten cmp_var cmp_var_value case_matches prog) j (jump prog l) s'),
+     snd (run tfinal (tstep St exec flag_set trainer_beaten cmp_var cmp_var_value case_matches prog) j (jump prog l) s')).
+Proof. exact ProgramRun.program_script_goto_continues. Qed.
+Print Assumptions program_script_goto_continues.
+
+Theorem program_self_contained_scripts_correct :
+  forall (St : Type) (exec : cmd -> St -> stepres St) (flag_set trainer_beaten : text -> St -> bool)
+    (cmp_var cmp_var_value : text -> text -> St -> comparison) (case_matches : text -> text -> St -> bool) (hl hd hs : N -> bool)
+    (autovars : list (text * autovar)) (switches : list (text * text)) (ee : bool) (fc : fontcfg) (cli_font : text) 
+    (cli_maxlen : Z) (src : text) (p : program) (optimize : bool) (mp : option text) (prog : list instr),
+  parse_program autovars switches ee (parse_format fc cli_font cli_maxlen ee) (lex hl hd hs src) = Parser.Ok p ->
+  emit_program_instrs optimize mp p = Ok prog ->
+  NoDup (lnames prog) ->
+  forall (name : text) (glob : bool) (body : list stmt),
+  In (name, glob, body) (NameClash.scripts_of (tops p)) ->
+  forall (w : wst) (code : list instr),
+  emit_graph body = Ok w ->
+  emit_script mp (map xname (texts p)) name glob optimize body = Ok code ->
+  RenderFromSource.names_okb (finals w) code = true ->
+  (forall l : text, In l (jtargets code) -> In l (lnames prog) -> In l (lnames code)) ->
+  (forall (n : nat) (s : St),
+   exists m : nat,
+     run sfinal (sstep St exec flag_set trainer_beaten cmp_var cmp_var_value case_matches (fun l : text => fl_body l body Kstop)) n
+       (enter body Kstop) s = run tfinal (tstep St exec flag_set trainer_beaten cmp_var cmp_var_value case_matches prog) m (jump prog name) s) /\
+  (forall (m : nat) (s : St),
+   exists n : nat,
+     res_le (run tfinal (tstep St exec flag_set trainer_beaten cmp_var cmp_var_value case_matches prog) m (jump prog name) s)
+       (run sfinal (sstep St exec flag_set trainer_beaten cmp_var cmp_var_value case_matches (fun l : text => fl_body l body Kstop)) n
+          (enter body Kstop) s)).
+Proof. exact ProgramRun.program_self_contained_scripts_correct. Qed.
+Print Assumptions program_self_contained_scripts_correct.
+
